@@ -33,22 +33,33 @@ def allWords (alpha : Str) : Nat → List Str
   | 0 => [[]]
   | n + 1 => alpha.flatMap fun c => (allWords alpha n).map (c :: ·)
 
+/-- every rotation of `t` when circular (written with `drop`/`take` over every offset), else `t` alone -/
+def rots (circ : Bool) (t : Str) : List Str :=
+  if circ then t :: (List.range t.length).map (fun k => t.drop k ++ t.take k) else [t]
+
 /-- BRUTE-FORCE orbit of a (normalised) sequence: every rotation when circular, of the sequence and —
-when double-stranded — of its other strand (`specRc`: the independent code-set complement).  Written
-with `drop`/`take` over every offset; no canonical form, no least rotation. -/
+when double-stranded — of its other strand.  No canonical form, no least rotation.
+"Other strand" is `specRc`: reverse + the independent code-set complement, with `U` pairing with `A`
+(as in RNA) also when the declared type is DNA.  That reading of a `U` inside a DNA word is a choice of
+this judge; it is the choice under which `U`-under-DNA is a defect (with it, `U` and `T` are different
+letters with the same partner). -/
 def orbit (s : Str) (circ ds : Bool) : List Str :=
-  let rots := fun (t : Str) => if circ then t :: (List.range t.length).map (fun k => t.drop k ++ t.take k) else [t]
-  rots s ++ (if ds then rots (specRc s) else [])
+  rots circ s ++ (if ds then rots circ (specRc s) else [])
 
 /-- "the same molecule", decided by enumeration: one lies in the orbit of the other -/
 def sameMolecule (a b : Str) (circ ds : Bool) : Bool := (orbit a circ ds).contains b || (orbit b circ ds).contains a
 
-/-- the class of known finding C05-dna-u-strand, exactly: double-stranded, type DNA (under RNA `U` has
-been rewritten), at least one of the two sequences contains `U`, and the two are the same molecule once
-`U` is read as `T` (they differ only by letters whose complements coincide, up to rotation/strand) -/
-def knownPair (ty : String) (ds : Bool) (w w' : Str) (circ : Bool) : Bool :=
-  let fold := fun (s : Str) => s.map fun c => if c == 'U' then 'T' else c
-  ds && ty == "DNA" && (w.contains 'U' || w'.contains 'U') && sameMolecule (fold w) (fold w') circ ds
+/-- Known finding C05-dna-u-strand, SEPARATION half, exactly (Props/C05 `hash_collision_class`): double-stranded,
+type DNA, a `U` in one of the two words, and the two words have the SAME OTHER STRAND up to rotation (so they
+differ only in the `U`/`T` spelling of letters: `U` and `T` both complement to `A`). -/
+def knownSep (ty : String) (circ ds : Bool) (w w' : Str) : Bool :=
+  ds && ty == "DNA" && (w.contains 'U' || w'.contains 'U') && (rots circ (specRc w)).contains (specRc w')
+
+/-- COMPLETENESS half, exactly: double-stranded, type DNA, the word contains `U` and the orbit member with a
+different hash is (a rotation of) its OTHER STRAND — never a plain rotation of the word itself
+(rotation invariance is untouched by the defect). -/
+def knownComp (ty : String) (circ ds : Bool) (w o : Str) : Bool :=
+  ds && ty == "DNA" && w.contains 'U' && (rots circ (specRc w)).contains o && !(rots circ w).contains o
 
 /-- cases:
   `form s ty circ ds`        : one Hash call; value must be the published v1 form of the canonical representative,
@@ -114,19 +125,23 @@ def judge (f out : List String) : Verdict :=
           match w2h[key o]? with
           | some h' => if h' == h then acc else (w, o) :: acc
           | none => acc) acc) []
-      let fails := sepFails ++ compFails
-      let allKnown := fails.all fun (w, w') => knownPair ty d w w' c
-      let ok := consistent && fails.isEmpty
-      let kf := !fails.isEmpty && consistent && allKnown
+      let (sepKnown, sepNew) := sepFails.partition fun (w, w') => knownSep ty c d w w'
+      let (compKnown, compNew) := compFails.partition fun (w, o) => knownComp ty c d w o
+      let nfails := sepFails.length + compFails.length
+      let ok := consistent && nfails == 0
+      -- the known-finding tag needs: every failing pair is in the exact class AND the implementation agrees with the
+      -- model (which IS the recorded defect) on every word of the family
+      let kf := nfails != 0 && consistent && sepNew.isEmpty && compNew.isEmpty && corr
       { corr := corr, judge := some ok,
         cls := (if kf then "kf:C05-dna-u-strand/" else "") ++ "partition/" ++ specTag ty c d ++ "/" ++ alpha ++ "/" ++ n,
         detail := if ok && corr then s!"classes={h2w.size}"
-          else if !corr then "model differs from the implementation on some word"
+          else if ok then "model differs from the implementation on some word"
           else if !consistent then "two words with the same normalised sequence have different hashes"
           else
             let show2 := fun (p : Str × Str) => String.ofList p.1 ++ "~" ++ String.ofList p.2
-            s!"separation failures (same hash, not the same molecule): {sepFails.length} e.g. {(sepFails.take 3).map show2}; " ++
-            s!"completeness failures (same molecule, different hash): {compFails.length} e.g. {(compFails.take 3).map show2}" }
+            -- pairs OUTSIDE the known class are shown first
+            s!"separation failures (same hash, not the same molecule): {sepFails.length}, outside C05-dna-u-strand: {sepNew.length} e.g. {((sepNew ++ sepKnown).take 3).map show2}; " ++
+            s!"completeness failures (same molecule, different hash): {compFails.length}, outside C05-dna-u-strand: {compNew.length} e.g. {((compNew ++ compKnown).take 3).map show2}" }
     | _ => { corr := false, judge := some false, cls := "partition", detail := "bad reply" }
   | _ => { corr := false, judge := none, cls := "bad-case" }
 
